@@ -98,7 +98,7 @@ def main():
             plans.append("PLAN %s %d %d" % (p, seed, iters))
     # a lattice world (two discrete components): distances are integers, so nearest-neighbour ties are the rule and every
     # tie-break inside the structures (order of child visits in the GNAT, ...) has to come from the seed as well
-    for p in (["RRT", "RRTConnect", "RRTstar", "EST"] if quick else ["RRT", "RRTConnect", "RRTstar", "LazyRRT", "EST", "KPIECE1", "SBL", "SST", "STRIDE"]):
+    for p in (["RRT", "RRTConnect", "RRTstar", "EST"] if quick else ["RRT", "RRTConnect", "RRTstar", "LazyRRT", "EST", "SST", "TRRT", "BiEST"]):
         for seed, iters in ([(9, 3000), (17, 3000), (23, 6000)] if quick else [(9, 3000), (17, 3000), (23, 6000), (42, 3000), (10, 6000), (26, 6000), (7, 12000), (8, 1000)]):
             plans.append("PLAN %s %d %d grid" % (p, seed, iters))
     nplan = 0
